@@ -47,6 +47,17 @@ def change_log(trace):
     return rows
 
 
+def change_log_arrays(o, i):
+    """Change-log computed from outer / inner state arrays [frame][atom] (no assumption that inner is none or outer)."""
+    L, A = len(o), len(o[0])
+    rows = []
+    for a in range(A):
+        for t in range(L - 1):
+            if o[t][a] != o[t + 1][a] or i[t][a] != i[t + 1][a]:
+                rows.append((a, int(o[t][a]), int(o[t + 1][a]), int(i[t][a]), int(i[t + 1][a]), t))
+    return rows
+
+
 def outer_change_times(trace):
     L = len(trace)
     A = len(trace[0])
